@@ -179,7 +179,68 @@ def unfold_axioms(terms, extra_fuel=0):
 # ---- SMT-LIB emission ------------------------------------------------------------------------------------------
 
 
+_canon_cache: dict = {}
+
+
+def canon_binders(t, depth=0):
+    """The same formula with CANONICAL names for bound variables (`b<depth>_<k>`): z3 keeps binder names in the AST, and the
+    engine draws them from a global counter, so two evaluations of one clause are different ASTs (also as sub-formulas) and
+    the solvers have to re-derive a formula from its alpha-variant.  After renaming, alpha-equivalent (sub)formulas are the
+    identical hash-consed term.  Done at emission only; the engine's own terms keep their unique binder constants."""
+    key = (t.get_id(), depth)
+    hit = _canon_cache.get(key)
+    if hit is not None:
+        return hit[1]
+    if z3.is_quantifier(t):
+        n = t.num_vars()
+        consts = [z3.Const(f"b{depth}_{k}", t.var_sort(k)) for k in range(n)]
+        inst = lambda e: z3.substitute_vars(e, *reversed(consts))  # noqa: E731  (var index 0 = the LAST bound variable)
+        body = canon_binders(inst(t.body()), depth + 1)
+        if t.is_lambda():
+            r = z3.Lambda(consts, body)
+        else:
+            pats = []
+            for i in range(t.num_patterns()):
+                pats.append(z3.MultiPattern(*[canon_binders(inst(c), depth + 1) for c in t.pattern(i).children()]))
+            nopats = [canon_binders(inst(t.no_pattern(i)), depth + 1) for i in range(t.num_no_patterns())]
+            mk = z3.ForAll if t.is_forall() else z3.Exists
+            r = mk(consts, body, weight=t.weight(), patterns=pats, no_patterns=nopats)
+    elif z3.is_app(t) and t.num_args() > 0:
+        # replace the maximal quantified sub-terms (those not below another binder)
+        subs, stack, seen = [], [t], set()
+        while stack:
+            x = stack.pop()
+            if x.get_id() in seen:
+                continue
+            seen.add(x.get_id())
+            if z3.is_quantifier(x):
+                y = canon_binders(x, depth)
+                if not y.eq(x):
+                    subs.append((x, y))
+            elif z3.is_app(x):
+                stack.extend(x.children())
+        r = z3.substitute(t, *subs) if subs else t
+    else:
+        r = t
+    if len(_canon_cache) > 300000:
+        _canon_cache.clear()
+    _canon_cache[key] = (t, r)
+    return r
+
+
 def to_smt2(ob: Obligation, extra_fuel=0) -> str:
+    s = z3.Solver()
+    hyps = list(ob.hyps)
+    ax = unfold_axioms(hyps + [ob.goal], extra_fuel)
+    canon = os.environ.get("PYVC_CANON_BINDERS", "1") != "0"
+    for h in hyps + ax:
+        s.add(canon_binders(h) if canon else h)
+    s.add(z3.Not(canon_binders(ob.goal) if canon else ob.goal))
+    txt = s.to_smt2()
+    return reorder_datatypes(txt)
+
+
+def _to_smt2_uncanon(ob: Obligation, extra_fuel=0) -> str:
     s = z3.Solver()
     hyps = list(ob.hyps)
     ax = unfold_axioms(hyps + [ob.goal], extra_fuel)
